@@ -433,6 +433,11 @@ def run(ctx):
             continue
         for bb, t in fn.calls():
             p = t["fn"].get("path", "")
+            if callee_name(p) in ("to_le_bytes", "from_le_bytes", "to_be_bytes", "from_be_bytes", "to_ne_bytes", "from_ne_bytes") and ("core::num" in p or "::num::" in p):
+                # the std equivalents of the byteorder calls
+                nle += 1
+                ctx.check("endianness", "%s/%s@%s" % (fn.path.split("::")[-1], callee_name(p), values.fmt(W.ev(fn.path).call_args(bb)[-1])[:40]), "_le_" in callee_name(p),
+                          "%s (little-endian)" % callee_name(p), "%s in %s is not little-endian" % (callee_name(p), fn.path), fn.loc(bb))
             if p.startswith("byteorder::") and (callee_name(p).startswith("read_u") or callee_name(p).startswith("write_u")):
                 nle += 1
                 le = any("LittleEndian" in s for s in t["fn"].get("substs", []))
